@@ -28,7 +28,8 @@ def main():
             json.dump(out, open(os.path.join(VERIF, "spec", "witness", "tracker_%s.json" % name), "w"))
             print(cfg, "witness of", len(beh), "states", "%.0fs" % r.wall)
         # branch-coverage witnesses: one shortest behaviour per (action, branch tag)
-        for cfg in sorted(f for f in os.listdir(d) if f.startswith("Tracker_cover_") and f.endswith(".cfg")):
+        covers = [] if os.environ.get("SKIP_COVER") else sorted(f for f in os.listdir(d) if f.startswith("Tracker_cover_") and f.endswith(".cfg"))
+        for cfg in covers:
             r = tla.run_tlc(d, "TrackerCover.tla", cfg, workers=1, timeout=6000, heap="16g", extra=["-continue"])
             behs = tla.parse_error_traces(r.out)
             consts = {}
